@@ -7,7 +7,7 @@
    model side - where the implementation iterates a set, the check sweeps PYTHONHASHSEED. *)
 From Coq Require Import ZArith QArith List Bool Permutation Arith.
 From VL Require Import Prelude.Sx Prelude.PyDict Prelude.GDict Model.GetNBest Model.HighestAverages Model.Condorcet Model.Convert
-     Proofs.GetNBest_proofs Proofs.QOrd Proofs.Order_proofs Proofs.Convert_proofs.
+     Proofs.GetNBest_proofs Proofs.QOrd Proofs.Order_proofs Proofs.Convert_proofs Proofs.HA_proofs Proofs.Divisor_proofs Proofs.HAPerm_proofs.
 Import ListNotations.
 Close Scope Q_scope.
 Close Scope Z_scope.
@@ -50,10 +50,20 @@ Theorem C10_ballot_order : forall (B : Type) (image : B -> list (sx * Q)) (a b :
   Permutation a b -> (gget sx_eqb (dconv image a) k == gget sx_eqb (dconv image b) k)%Q.
 Proof. intros B image. exact (conv_perm sx_eqb sx_eqb_spec image). Qed.
 
-(* clauses decided per explored case by the metamorphic streams (not proved) *)
-Definition C10_highest_averages_full_statement : Prop :=
-  forall d votes votes' n prev caps, Permutation votes votes' -> NoDup (map fst votes) ->
-    forall c, dget_or (st_totals (final_state d votes n prev caps)) c 0%Z = dget_or (st_totals (final_state d votes' n prev caps)) c 0%Z.
+(* every highest-averages rule: listing the parties in another order changes neither any party's seats
+   nor the seats left, and a reported tie names the same parties for the same number of seats *)
+Theorem C10_highest_averages_order : forall (d : Z -> Q) (votes votes' : list (C * Q)) (caps prev : list (C * Z)) (n : Z),
+  divisor_ok d -> (forall c v, In (c, v) votes -> (0 <= v)%Q) -> NoDup (map fst votes) ->
+  (forall c, (0 <= dget_or prev c 0)%Z) -> Permutation votes votes' ->
+  (forall c, dget_or (st_totals (final_state d votes n prev caps)) c 0%Z = dget_or (st_totals (final_state d votes' n prev caps)) c 0%Z) /\
+  tie_eq (st_tie (final_state d votes n prev caps)) (st_tie (final_state d votes' n prev caps)) /\
+  st_rem (final_state d votes n prev caps) = st_rem (final_state d votes' n prev caps).
+Proof.
+  intros d votes votes' caps prev n [Hp Hm] Hv Hnd Hprev Hperm.
+  exact (ha_perm d votes votes' caps prev n Hp Hm Hv Hnd Hprev Hperm).
+Qed.
+
+(* clause decided per explored case by the metamorphic streams (not proved) *)
 Definition C10_schulze_order_full_statement : Prop :=
   forall v order order' n, Permutation order order' -> NoDup order ->
     (forall c, In c (candidates v) <-> In c order) ->
@@ -70,3 +80,4 @@ Print Assumptions C10_order.
 Print Assumptions C10_symmetric.
 Print Assumptions C10_rename.
 Print Assumptions C10_ballot_order.
+Print Assumptions C10_highest_averages_order.
